@@ -1,7 +1,411 @@
-import GqlgenVerif.Model.Http
-namespace GqlgenVerif.Props.C09
-open GqlgenVerif.Http GqlgenVerif.Gen.HttpStatus
+import GqlgenVerif.Lemmas.Http
+/-!
+# C09 — HTTP: GET never mutates; status and content type follow the request outcome
 
-theorem placeholder : (1 : Nat) = 1 := rfl
+All theorems quantify over every transport list (any order, duplicates, any `ResponseHeaders`) and every
+request of `Model/Http.lean`: any method / content type / Accept list (unbounded), any document outcome
+with an unbounded list of operations of any kinds and names, any `operationName`, any decode or gate
+failure. The tables (`statusFor`, `statusForGraphQLResponse`, `codeType`, the cases of
+`determineResponseContentType`, the GET guard) are the ones REGENERATED from `/repo` in
+`Gen/HttpStatus.lean`, so an edit of those tables is an edit of these theorems' subject.
+
+`s1 … s7` (Model/Http.lean, namespace `Spec`) are the sentences of the property written directly; the
+theorems say `serve` - the model of the code as it is, tied to the code by the correspondence run -
+satisfies each of them for all inputs. `violations_nil_iff` ties the executable checker the driver applies
+to the implementation's own output to the same seven sentences.
+-/
+namespace GqlgenVerif.Props.C09
+open GqlgenVerif.Http GqlgenVerif.Http.Spec GqlgenVerif.Gen.HttpStatus
+
+/-! ## regenerated tables -/
+
+/-- the GET guard (regenerated from GET.Do) refuses exactly the non-query kinds -/
+theorem getRefuses_iff (k : AstOp) : getRefuses k = true ↔ k ≠ .astQuery := by
+  cases k <;> decide
+
+/-- … and refuses with a non-2xx status -/
+theorem getRefused_not_2xx : is2xx getRefusedStatus = false := by decide
+
+/-- parse and validation failures are protocol errors: 422 for application/json, 400 for
+    application/graphql-response+json (regenerated statusFor / statusForGraphQLResponse / codeType) -/
+theorem statusFor_protocol :
+    statusFor (getErrorKind [some ParseFailed]) = 422 ∧ statusFor (getErrorKind [some ValidationFailed]) = 422 ∧
+    statusForGraphQLResponse (getErrorKind [some ParseFailed]) = 400 ∧
+    statusForGraphQLResponse (getErrorKind [some ValidationFailed]) = 400 := by decide
+
+/-- whatever else stops a request before execution (no code, unmapped code) is answered 200 -/
+theorem statusFor_user (c : Option String) (h1 : c ≠ some ParseFailed) (h2 : c ≠ some ValidationFailed) :
+    statusFor (getErrorKind [c]) = 200 ∧ statusForGraphQLResponse (getErrorKind [c]) = 200 := by
+  cases c with
+  | none => decide
+  | some s =>
+    have a1 : ¬ ("GRAPHQL_PARSE_FAILED" = s) := fun h => h1 (by simp [← h, ParseFailed])
+    have a2 : ¬ ("GRAPHQL_VALIDATION_FAILED" = s) := fun h => h2 (by simp [← h, ValidationFailed])
+    simp [getErrorKind, lookupKind, codeType, List.find?, a1, a2, defaultKind, statusFor, statusForGraphQLResponse]
+
+example : (some "PERSISTED_QUERY_NOT_FOUND") ≠ some ParseFailed ∧
+    (some "PERSISTED_QUERY_NOT_FOUND") ≠ some ValidationFailed := by decide
+
+theorem gateStatus_parse (ct : String) : gateStatus ct [some ParseFailed] = clientError ct := by
+  have h := statusFor_protocol
+  unfold gateStatus clientError
+  simp only [acceptApplicationGraphqlResponseJson, gqlresp]
+  by_cases hc : ct = "application/graphql-response+json" <;> simp [hc, h.1, h.2.2.1]
+
+theorem gateStatus_validation (ct : String) : gateStatus ct [some ValidationFailed] = clientError ct := by
+  have h := statusFor_protocol
+  unfold gateStatus clientError
+  simp only [acceptApplicationGraphqlResponseJson, gqlresp]
+  by_cases hc : ct = "application/graphql-response+json" <;> simp [hc, h.2.1, h.2.2.2]
+
+/-- the accept loop of determineResponseContentType is "the first part that names or covers a GraphQL
+    response media type decides" -/
+theorem acceptLoop_eq (parts : List (Option String)) :
+    acceptLoop parts = (parts.findSome? wants).getD gqlresp := by
+  induction parts with
+  | nil => rfl
+  | cons p rest ih =>
+    cases p with
+    | none => simpa [acceptLoop, wants, List.findSome?_cons] using ih
+    | some mt =>
+      by_cases h1 : mt = "application/json"
+      · subst h1; rfl
+      by_cases h2 : mt = "application/graphql-response+json"
+      · subst h2; rfl
+      by_cases h3 : mt = "*/*"
+      · subst h3; rfl
+      by_cases h4 : mt = "application/*"
+      · subst h4; rfl
+      have hw : wants (some mt) = none := by
+        unfold wants; split <;> simp_all
+      have hc : caseFor mt ctCases = none := by
+        simp [caseFor, ctCases, h1, h2, h3, h4]
+      simp [acceptLoop, hc, hw, ih]
+
+/-- `determineResponseContentType` as it is in the source today is the negotiation of the property -/
+theorem determineCT_eq_negotiate (e : Option String) (a : Option (List (Option String))) :
+    determineCT e a = negotiate e a := by
+  cases e with
+  | some v => simp [determineCT, negotiate, ctExplicitWins]
+  | none =>
+    cases a with
+    | none => rfl
+    | some parts => simp [determineCT, negotiate, ctExplicitWins, acceptLoop_eq]
+
+example : negotiate none (some [some "text/html", none, some "application/json", some "*/*"]) = json := by decide
+example : negotiate none (some [some "text/html"]) = gqlresp := by decide
+example : negotiate (some "text/x-custom") (some [some "application/json"]) = "text/x-custom" := by decide
+
+/-! ## the seven sentences of the property -/
+
+/-- Over GET only queries execute; a request naming a mutation or subscription (by operationName, or as
+    the document's only operation) runs nothing and is answered with errors. -/
+theorem get_executes_only_queries (srv : List Transport) (r : Req) : s1 srv r (serve srv r) := by
+  intro hm
+  have key : ∀ op, (serve srv r).executed = some op → op.kind = .astQuery ∧ Names (docOps r.doc) r.opName op := by
+    intro op h
+    generalize hs : serve srv r = o at h
+    have sv := served srv r; rw [hs] at sv
+    cases sv with
+    | ran t op' b hg ho hd hgate hguard hb =>
+      simp only [Option.some.injEq] at h; subst h
+      have hsup := (supports_of_getTransport hg).2
+      have hk : t.kind = .get := by
+        cases hkk : t.kind <;> simp [supports, hkk, hm] at hsup <;> first | rfl | exact absurd hkk ho
+      obtain ⟨_, l, hl, hf, _⟩ := gate_ok hgate
+      refine ⟨?_, by simpa [docOps, hl] using forName_names hf⟩
+      have := hguard hk
+      cases hq : op'.kind <;> first | rfl | (rw [hq] at this; exact absurd this (by decide))
+    | _ => simp at h
+  refine ⟨fun op h => (key op h).1, ?_⟩
+  intro hu op _ hn hq
+  have hnone : (serve srv r).executed = none := by
+    cases he : (serve srv r).executed with
+    | none => rfl
+    | some op' =>
+      obtain ⟨hq', hn'⟩ := key op' he
+      exact absurd (names_unique hu hn hn' ▸ hq') hq
+  refine ⟨hnone, ?_⟩
+  generalize hs : serve srv r = o at hnone
+  have sv := served srv r; rw [hs] at sv
+  cases sv <;> simp at hnone ⊢
+
+example : (serve [⟨.get, ⟨none, false⟩⟩] {
+        method := .get
+        upgrade := false
+        rct := .invalid
+        accept := none
+        dec := none
+        paramErr := none
+        doc := .ops [⟨.astQuery, "a"⟩, ⟨.astMutation, "b"⟩]
+        opName := "b"
+        varsOk := true
+        execErr := false }) = { status := 406, ctype := some "application/json", body := .errors, executed := none } := by
+  decide
+
+/-- GET refuses the named non-query operation with the guard's status (406), runs nothing. -/
+theorem get_refuses_non_query (srv : List Transport) (r : Req) (t : Transport) (op : Op)
+    (ht : getTransport srv r = some t) (hk : t.kind = .get) (hd : r.dec.bind (decodeStatus .get) = none)
+    (hg : gate r = .ok op) (hq : op.kind ≠ .astQuery) :
+    (serve srv r).status = 406 ∧ (serve srv r).executed = none ∧ (serve srv r).body = .errors := by
+  have hr : getRefuses op.kind = true := (getRefuses_iff _).2 hq
+  simp [serve, ht, hk, doDocument, hd, hg, hr, getRefusedStatus]
+
+/-- What executes is the operation the request names. -/
+theorem executes_named_operation (srv : List Transport) (r : Req) : s2 srv r (serve srv r) := by
+  intro op h
+  generalize hs : serve srv r = o at h
+  have sv := served srv r; rw [hs] at sv
+  cases sv with
+  | ran t op' b hg ho hd hgate hguard hb =>
+    simp only [Option.some.injEq] at h; subst h
+    obtain ⟨_, l, hl, hf, _⟩ := gate_ok hgate
+    simpa [docOps, hl] using forName_names hf
+  | _ => simp at h
+
+/-- … and it is the only operation the request names, when operation names are unique. -/
+theorem executes_the_named_operation (srv : List Transport) (r : Req) (op op' : Op)
+    (hu : ((docOps r.doc).map (·.name)).Nodup) (h : (serve srv r).executed = some op)
+    (hn : Names (docOps r.doc) r.opName op') : op' = op :=
+  names_unique hu hn (executes_named_operation srv r op h)
+
+example : (serve [⟨.post, ⟨none, false⟩⟩] {
+        method := .post
+        upgrade := false
+        rct := .json
+        accept := none
+        dec := none
+        paramErr := none
+        doc := .ops [⟨.astQuery, "a"⟩, ⟨.astMutation, "b"⟩, ⟨.astQuery, "c"⟩]
+        opName := "b"
+        varsOk := true
+        execErr := false }).executed = some ⟨.astMutation, "b"⟩ := by decide
+
+/-- No resolver has run for any request answered with a non-2xx status. -/
+theorem non2xx_ran_nothing (srv : List Transport) (r : Req) : s3 srv r (serve srv r) := by
+  intro h
+  generalize hs : serve srv r = o at h
+  have sv := served srv r; rw [hs] at sv
+  cases sv <;> first | rfl | (simp [is2xx] at h)
+
+/-- A request whose execution started is always answered 200. -/
+theorem started_is_200 (srv : List Transport) (r : Req) : s4 srv r (serve srv r) := by
+  intro h
+  generalize hs : serve srv r = o at h
+  have sv := served srv r; rw [hs] at sv
+  cases sv <;> first | rfl | (simp at h)
+
+/-- A document that fails parsing or validation is answered with the client-error status defined for the
+    negotiated media type (400 for application/graphql-response+json, 422 otherwise) and nothing runs. -/
+theorem parse_validation_status (srv : List Transport) (r : Req) : s5 srv r (serve srv r) := by
+  intro hreach hfail
+  unfold reachesGate at hreach
+  cases hg : getTransport srv r with
+  | none => simp [hg] at hreach
+  | some t =>
+    simp only [hg, Bool.and_eq_true, Option.isNone_iff_eq_none, ne_eq, decide_eq_true_eq] at hreach
+    obtain ⟨⟨ho, hd⟩, hp⟩ := hreach
+    have hcfg : configured srv r = t.hdrs.ct := by simp [configured, hg]
+    rcases gate_of_docFails hp hfail with hgate | hgate
+    · simp [serve, hg, ho, doDocument, hd, hgate, hcfg, gateStatus_parse, determineCT_eq_negotiate]
+    · simp [serve, hg, ho, doDocument, hd, hgate, hcfg, gateStatus_validation, determineCT_eq_negotiate]
+
+example : reachesGate [⟨.graphql, ⟨none, false⟩⟩] {
+        method := .post
+        upgrade := false
+        rct := .graphql
+        accept := some [some "application/graphql-response+json"]
+        dec := none
+        paramErr := none
+        doc := .parseErr
+        opName := ""
+        varsOk := true
+        execErr := false } = true ∧
+    (serve [⟨.graphql, ⟨none, false⟩⟩] {
+        method := .post
+        upgrade := false
+        rct := .graphql
+        accept := some [some "application/graphql-response+json"]
+        dec := none
+        paramErr := none
+        doc := .parseErr
+        opName := ""
+        varsOk := true
+        execErr := false }).status = 400 := by decide
+
+/-- Every response with a body carries exactly the Content-Type negotiated from Accept and the configured
+    headers of the transport that took the request (none configured when no transport did). -/
+theorem content_type_negotiated (srv : List Transport) (r : Req) : s6 srv r (serve srv r) := by
+  intro h
+  generalize hs : serve srv r = o at h
+  have sv := served srv r; rw [hs] at sv
+  cases sv with
+  | noTransport hg => simp [configured, hg, determineCT_eq_negotiate]
+  | options t st hg ho hst => simp at h
+  | decodeFail t st hg => simp [configured, hg, determineCT_eq_negotiate]
+  | gateErr t codes hg => simp [configured, hg, determineCT_eq_negotiate]
+  | refused t op hg => simp [configured, hg, determineCT_eq_negotiate]
+  | ran t op b hg => simp [configured, hg, determineCT_eq_negotiate]
+
+/-- Every response body is a JSON GraphQL response (errors or data); only the Options transport answers
+    without a body. -/
+theorem body_is_graphql_json (srv : List Transport) (r : Req) : s7 srv r (serve srv r) := by
+  unfold s7
+  generalize hs : serve srv r = o
+  have sv := served srv r; rw [hs] at sv
+  cases sv with
+  | options t st hg ho hst => exact ⟨by simp, fun _ => ⟨t, hg, ho⟩⟩
+  | ran t op b hg ho hd hgate hguard hb => rcases hb with rfl | rfl <;> simp
+  | _ => simp
+
+/-! ## transport selection -/
+
+/-- `getTransport` is the first transport whose `Supports` is true. -/
+theorem first_supporting_transport_wins (t : Transport) (rest : List Transport) (r : Req)
+    (h : supports t.kind r = true) : getTransport (t :: rest) r = some t := by
+  simp [getTransport, List.find?, h]
+
+/-- The `Supports` predicates are mutually exclusive, so with one transport per kind the transport that
+    takes a request does not depend on the order of registration. -/
+theorem getTransport_iff_mem (srv : List Transport) (r : Req) (t : Transport)
+    (hu : (srv.map (·.kind)).Nodup) :
+    getTransport srv r = some t ↔ t ∈ srv ∧ supports t.kind r = true := by
+  constructor
+  · exact supports_of_getTransport
+  · intro ⟨hm, hs⟩
+    cases hg : getTransport srv r with
+    | none =>
+      have := List.find?_eq_none.mp hg t hm
+      simp [hs] at this
+    | some t' =>
+      obtain ⟨hm', hs'⟩ := supports_of_getTransport hg
+      have hk : t'.kind = t.kind := supports_exclusive hs' hs
+      clear hg
+      induction srv with
+      | nil => cases hm
+      | cons x xs ih =>
+        simp only [List.map_cons, List.nodup_cons, List.mem_map, not_exists, not_and] at hu
+        rcases List.mem_cons.mp hm with rfl | hm1
+        · rcases List.mem_cons.mp hm' with rfl | hm2
+          · rfl
+          · exact absurd hk (hu.1 t' hm2)
+        · rcases List.mem_cons.mp hm' with rfl | hm2
+          · exact absurd hk.symm (hu.1 t hm1)
+          · exact ih hu.2 hm1 hm2
+
+theorem order_irrelevant (srv1 srv2 : List Transport) (r : Req)
+    (h1 : (srv1.map (·.kind)).Nodup) (h2 : (srv2.map (·.kind)).Nodup) (hmem : ∀ t, t ∈ srv1 ↔ t ∈ srv2) :
+    serve srv1 r = serve srv2 r := by
+  have : getTransport srv1 r = getTransport srv2 r := by
+    cases hg : getTransport srv1 r with
+    | some t =>
+      have := (getTransport_iff_mem srv1 r t h1).1 hg
+      exact ((getTransport_iff_mem srv2 r t h2).2 ⟨(hmem t).1 this.1, this.2⟩).symm
+    | none =>
+      cases hg2 : getTransport srv2 r with
+      | none => rfl
+      | some t =>
+        have := (getTransport_iff_mem srv2 r t h2).1 hg2
+        have := (getTransport_iff_mem srv1 r t h1).2 ⟨(hmem t).2 this.1, this.2⟩
+        rw [hg] at this; cases this
+  simp [serve, this]
+
+example : ([⟨.post, ⟨none, false⟩⟩, ⟨.get, ⟨some "a/b", true⟩⟩] : List Transport).map (·.kind) |>.Nodup := by decide
+
+/-! ## the checker the driver applies to the implementation's own output is the same seven sentences -/
+
+theorem c1_iff (srv : List Transport) (r : Req) (o : Resp) : c1 srv r o = true ↔ s1 srv r o := by
+  unfold c1 s1
+  by_cases hm : r.method = .get
+  · by_cases hu : ((docOps r.doc).map (·.name)).Nodup
+    · cases he : o.executed with
+      | none =>
+        simp [hm, hu]
+        constructor
+        · intro h op hmem hn hq
+          rcases h op hmem with (h | h) | h
+          · exact absurd hn h
+          · exact absurd h hq
+          · exact h
+        · intro h op hmem
+          by_cases hn : Names (docOps r.doc) r.opName op
+          · by_cases hq : op.kind = .astQuery
+            · exact Or.inl (Or.inr hq)
+            · exact Or.inr (h op hmem hn hq)
+          · exact Or.inl (Or.inl hn)
+      | some e =>
+        simp [hm, hu]
+        intro _
+        constructor
+        · intro h op hmem hn
+          rcases h op hmem with h | h
+          · exact absurd hn h
+          · exact h
+        · intro h op hmem
+          by_cases hn : Names (docOps r.doc) r.opName op
+          · exact Or.inr (h op hmem hn)
+          · exact Or.inl hn
+    · cases he : o.executed with
+      | none => simp [hm, hu]
+      | some e => simp [hm, hu]
+  · simp [hm]
+
+theorem c2_iff (srv : List Transport) (r : Req) (o : Resp) : c2 srv r o = true ↔ s2 srv r o := by
+  unfold c2 s2
+  cases o.executed with
+  | none => simp
+  | some e => simp
+
+theorem c3_iff (srv : List Transport) (r : Req) (o : Resp) : c3 srv r o = true ↔ s3 srv r o := by
+  unfold c3 s3
+  cases is2xx o.status <;> simp
+
+theorem c4_iff (srv : List Transport) (r : Req) (o : Resp) : c4 srv r o = true ↔ s4 srv r o := by
+  unfold c4 s4
+  cases o.executed <;> simp
+
+theorem c5_iff (srv : List Transport) (r : Req) (o : Resp) : c5 srv r o = true ↔ s5 srv r o := by
+  unfold c5 s5
+  cases reachesGate srv r <;> cases docFails r <;> simp
+
+theorem c6_iff (srv : List Transport) (r : Req) (o : Resp) : c6 srv r o = true ↔ s6 srv r o := by
+  unfold c6 s6
+  by_cases h : o.body = .empty <;> simp [h]
+
+theorem c7_iff (srv : List Transport) (r : Req) (o : Resp) : c7 srv r o = true ↔ s7 srv r o := by
+  unfold c7 s7
+  cases getTransport srv r with
+  | none => by_cases h : o.body = .empty <;> simp [h]
+  | some t => by_cases h : o.body = .empty <;> simp [h]
+
+/-- the driver's `chk` reports nothing exactly when the observed response satisfies all seven sentences -/
+theorem violations_nil_iff (srv : List Transport) (r : Req) (o : Resp) :
+    violations srv r o = [] ↔
+      s1 srv r o ∧ s2 srv r o ∧ s3 srv r o ∧ s4 srv r o ∧ s5 srv r o ∧ s6 srv r o ∧ s7 srv r o := by
+  rw [← c1_iff, ← c2_iff, ← c3_iff, ← c4_iff, ← c5_iff, ← c6_iff, ← c7_iff]
+  unfold violations
+  cases c1 srv r o <;> cases c2 srv r o <;> cases c3 srv r o <;> cases c4 srv r o <;> cases c5 srv r o <;>
+    cases c6 srv r o <;> cases c7 srv r o <;> simp
+
+/-- the model of the code as it is violates no sentence of the property, for any server and request -/
+theorem serve_no_violations (srv : List Transport) (r : Req) : violations srv r (serve srv r) = [] :=
+  (violations_nil_iff srv r _).2 ⟨get_executes_only_queries srv r, executes_named_operation srv r,
+    non2xx_ran_nothing srv r, started_is_200 srv r, parse_validation_status srv r, content_type_negotiated srv r,
+    body_is_graphql_json srv r⟩
+
+/-- the checker does fire: a mutation executed over GET is reported -/
+example : violations [⟨.get, ⟨none, false⟩⟩] {
+        method := .get
+        upgrade := false
+        rct := .invalid
+        accept := none
+        dec := none
+        paramErr := none
+        doc := .ops [⟨.astMutation, ""⟩]
+        opName := ""
+        varsOk := true
+        execErr := false }
+      { status := 200, ctype := some "application/json", body := .data, executed := some ⟨.astMutation, ""⟩ }
+    = ["get_executes_only_queries"] := by decide
 
 end GqlgenVerif.Props.C09
